@@ -115,6 +115,25 @@ def cross_check_sidecar(out, fx_adts, d):
 
 
 def run(cx, out):
+    """thorough tier: three corpora (seeds s, s+1, s+2: the systematic part is the same, the random part differs)"""
+    if cx.tier == 'thorough' and not getattr(cx, '_seed_loop', False) and not getattr(cx, 'nested', 0):
+        cx._seed_loop = True
+        base = cx.seed
+        try:
+            for sd in (base, base + 1, base + 2):
+                cx.seed = sd
+                cx._fixtures.pop('corpus', None)
+                _run(cx, out)
+                out.count('corpus seeds analysed', 1)
+        finally:
+            cx.seed = base
+            cx._seed_loop = False
+            cx._fixtures.pop('corpus', None)
+        return
+    _run(cx, out)
+
+
+def _run(cx, out):
     out.rule('R05.1', 'derived encoder shape == layout computed from the definition (independent oracle)')
     out.rule('R05.2', 'derived decoder mirrors it; accepts exactly the declared index bytes; skipped fields defaulted')
     out.rule('R05.3', 'derived Encode impls override an output method; overridden methods agree (R07.1)')
@@ -306,7 +325,9 @@ def run(cx, out):
             cx.need(['F'])
             fz = cx.facts('F', 'codec_fuzzer')
             unit(out, fz)
-            fz_impls = list(fz.impls)
+            if not hasattr(fz, '_own_impls'):
+                fz._own_impls = list(fz.impls)      # before the library facts are merged in
+            fz_impls = fz._own_impls
             libF = lib
             if not hasattr(fz, 'merged_with'):
                 fz.merge(libF)
